@@ -203,9 +203,9 @@ struct Harness {
 		switch (op.kind) {
 		case kRead: case kPeek: {
 			uint64_t k = op.a;
-			std::size_t bl = std::size_t(k < 64 ? k : 64);
-			std::unique_ptr<uint8_t[]> buf(new uint8_t[bl ? bl : 1]);
 			bool fits = k <= rem;
+			std::size_t bl = fits ? std::size_t(k) : std::size_t(k < 64 ? k : 64);   // exact size when the request must succeed
+			std::unique_ptr<uint8_t[]> buf(new uint8_t[bl ? bl : 1]);
 			if (!fits && bl > rem + 0) { /* exact-size buffer smaller than k: an implementation that copies first overruns it */ }
 			mc::Outcome o = mc::guarded([&] { if (op.kind == kRead) r.Read(buf.get(), std::size_t(k)); else r.Peek(buf.get(), std::size_t(k)); });
 			const char* nm = op.kind == kRead ? "Read" : "Peek";
@@ -225,7 +225,7 @@ struct Harness {
 		case kReadPartial: {
 			uint64_t k = op.a;
 			uint64_t expect = k < rem ? k : rem;
-			std::size_t bl = std::size_t(k < 64 ? k : 64);
+			std::size_t bl = std::size_t(expect > 64 ? expect : (k < 64 ? k : 64));   // room for everything that may legitimately be delivered
 			std::unique_ptr<uint8_t[]> buf(new uint8_t[bl ? bl : 1]);
 			std::size_t got = r.ReadPartial(buf.get(), std::size_t(k));
 			clauseHit(k > rem ? "readpartial/short" : "readpartial/full");
@@ -395,8 +395,16 @@ std::vector<std::vector<uint8_t>> sources()
 	v.push_back({ 0x04, 0x61, 0x62, 0x63 });
 	v.push_back({ 0x00 });
 	v.push_back({ 0x01, 0x00, 0x00, 0x80, 0x02, 0x00, 0x58, 0x59, 0x5A });
+	// long sources (probed operation by operation at positions 0..2, not explored): negative and large size prefixes with
+	// enough bytes behind them to satisfy a prefix that was misread as unsigned (-1 -> 255, -128 -> 128, -2 -> 65534, -32768 -> 32768)
+	for (auto head : { std::vector<uint8_t>{ 0xFF, 0xFF, 0xFF, 0xFF }, std::vector<uint8_t>{ 0x80, 0xFF, 0xFF, 0xFF }, std::vector<uint8_t>{ 0x00, 0x80, 0x00, 0x00 }, std::vector<uint8_t>{ 0xFE, 0xFF, 0x00, 0x00 }, std::vector<uint8_t>{ 0x7F, 0x80, 0x7F, 0xFF } }) {
+		std::vector<uint8_t> s = head;
+		while (s.size() < 140000) s.push_back(uint8_t(s.size() * 13 + 5));
+		v.push_back(s);
+	}
 	return v;
 }
+const std::size_t kProbeOnlyLength = 100000;
 
 struct MemHolder { std::unique_ptr<uint8_t[]> p; };
 
@@ -411,6 +419,31 @@ void explore(Backend<R>& be, Ctx& ctx)
 	if (peek::usedFallback()) ctx.count("binding/fallback-keys");
 	if (ctx.caseIndex % 7 == 0) ctx.sample(be.name + " len=" + std::to_string(be.src.size()) + " states=" + std::to_string(res.states) + " transitions=" + std::to_string(res.transitions) + " e.g. history: Seek(1) ReadPartial(18446744073709551615) Read(0)");
 }
+
+// long sources: every operation of the alphabet applied once at positions 0, 1 and 2 of a freshly made reader
+template <class R>
+void probe(Backend<R>& be, Ctx& ctx)
+{
+	Harness<R> h(be, ctx);
+	uint64_t n = 0;
+	for (uint64_t pos : { 0ull, 1ull, 2ull }) {
+		auto at = [&] { auto s = h.fresh(); s->r->Seek(pos); s->mpos = pos; return s; };
+		auto s0 = at();
+		for (auto& op : h.enabled(*s0)) {
+			auto s = at();
+			std::string hist = "Seek(" + std::to_string(pos) + ") " + showOp(op);
+			ctx.sub(be.name + " " + hist);
+			h.apply(*s, op, true, hist);
+			ctx.transition(); ++n;
+			if (op.kind == kPrefixed) ctx.count("typed/prefixed-on-long-source");
+		}
+	}
+	ctx.state(3); ctx.trace(n);
+	ctx.outcome(mc::fnv(be.name) ^ n);
+}
+
+template <class R>
+void exploreOrProbe(Backend<R>& be, Ctx& ctx) { if (be.src.size() >= kProbeOnlyLength) probe(be, ctx); else explore(be, ctx); }
 
 const int kBackends = 5;
 
@@ -427,7 +460,7 @@ void runCase(std::size_t idx, Ctx& ctx)
 		hold->p.reset(new uint8_t[src.size() ? src.size() : 1]);
 		std::memcpy(hold->p.get(), src.data(), src.size());
 		Backend<Stream::MemoryReader> be{ "MemoryReader:" + tag, src, [hold, n = src.size()] { return std::make_unique<Stream::MemoryReader>(hold->p.get(), n); }, true, hold };
-		explore(be, ctx);
+		exploreOrProbe(be, ctx);
 	}
 	else if (bi == 1) {
 		auto hold = std::make_shared<MemHolder>();
@@ -436,7 +469,7 @@ void runCase(std::size_t idx, Ctx& ctx)
 		Backend<Stream::MemoryReader> be{ "MemorySlice:" + tag, src, [hold, fn = framed.size(), n = src.size()] {
 			Stream::MemoryReader parent(hold->p.get(), fn);
 			return std::make_unique<Stream::MemoryReader>(parent.Slice(3, n)); }, true, hold };
-		explore(be, ctx);
+		exploreOrProbe(be, ctx);
 	}
 	else {
 		std::string dir = ctx.freshDir("c12");
@@ -446,14 +479,14 @@ void runCase(std::size_t idx, Ctx& ctx)
 			Backend<Stream::FileSliceReader> be{ "FileSlice:" + tag, src, [path, n = src.size()] {
 				Stream::FileReader fr(path);
 				return std::make_unique<Stream::FileSliceReader>(fr.Slice(3, n)); }, false, nullptr };
-			explore(be, ctx);
+			exploreOrProbe(be, ctx);
 		}
 		else if (bi == 3) {
 			Backend<Stream::FileSliceReader> be{ "FileSliceOfSlice:" + tag, src, [path, n = src.size()] {
 				Stream::FileReader fr(path);
 				auto outer = fr.Slice(1, n + 3);
 				return std::make_unique<Stream::FileSliceReader>(outer.Slice(2, n)); }, false, nullptr };
-			explore(be, ctx);
+			exploreOrProbe(be, ctx);
 		}
 		else {
 			// slice obtained with the at-current-position form after moving the parent
@@ -461,7 +494,7 @@ void runCase(std::size_t idx, Ctx& ctx)
 				Stream::FileReader fr(path);
 				fr.Seek(3);
 				return std::make_unique<Stream::FileSliceReader>(fr.Slice(n)); }, false, nullptr };
-			explore(be, ctx);
+			exploreOrProbe(be, ctx);
 		}
 		mc::removeTree(dir);
 	}
